@@ -38,7 +38,8 @@ fn affordable(lv: &[Level], alg: Alg, class: &str) -> bool {
 /// sign + lifetime + from_bytes on arbitrary key bytes
 fn probe_key(w: &mut Worker, alg: Alg, blob: &[u8], class: &str, detail: &str, aux: Option<Vec<u8>>) {
     let cfg = lcfg(alg);
-    let parsed = hss::parse_blob(&cfg, blob);
+    // in a build with reduced limits a well-formed key beyond them is an unusable input like any other
+    let parsed = hss::parse_blob(&cfg, blob).filter(|b| crate::common::in_build_limits(&b.levels));
     let replay = || {
         J::obj()
             .with("property", J::s("C11"))
@@ -147,7 +148,7 @@ fn probe_keygen(w: &mut Worker, alg: Alg, lv: &[Level], class: &str, detail: &st
     let cfg = lcfg(alg);
     let seed: Vec<u8> = (0..alg.n() as u8).map(|x| x.wrapping_mul(7).wrapping_add(3)).collect();
     let mut auxb = aux.clone().map(AuxBuf::new);
-    if !lv.is_empty() && lv.len() <= 8 && !affordable(lv, alg, class) {
+    if !lv.is_empty() && lv.len() <= 8 && crate::common::in_build_limits(lv) && !affordable(lv, alg, class) {
         w.report.count("skipped_valid_but_expensive", 1);
         return;
     }
@@ -166,7 +167,7 @@ fn probe_keygen(w: &mut Worker, alg: Alg, lv: &[Level], class: &str, detail: &st
             .with("aux", aux.as_ref().map(|a| J::hexa(a)).unwrap_or(J::Null))
     };
     let key = |what: &str, site: &str| format!("C11:{what}:{class}:{}:{site}", alg.name());
-    let valid = !lv.is_empty() && lv.len() <= 8;
+    let valid = !lv.is_empty() && lv.len() <= 8 && crate::common::in_build_limits(lv);
     match &out {
         Out::Panic(p) => r.violation(&key("panic:keygen", &p.site()), &format!("keygen panicked on a {class} input ({detail}): {} at {}", p.message, p.site()), replay()),
         Out::Ok(kp) => {
